@@ -111,3 +111,7 @@ Definition shadow_of (pl : platform) (skip_group skip_nc : bool) (bottom top : a
       else Ok (shadow_port (a_sport bottom) (a_sport top)
                && shadow_port (a_dport bottom) (a_dport top)
                && shadow_flags (a_flags bottom) (a_flags top)).
+
+(** boolean view used by the ACL-level algorithms (an exception aborts the whole call there) *)
+Definition shb (pl : platform) (sg snc : bool) (b t : N * ace) : bool :=
+  match shadow_of pl sg snc (snd b) (snd t) with Ok true => true | _ => false end.
